@@ -115,6 +115,9 @@ class Emitter:
             return f"ENV.obj({self.site()})"
         if op == "next":
             return f"next({x[1]}, -1)"
+        if op == "yieldfrom_e":
+            # r = yield from <generator>: the delegate's return value
+            return f"(yield from {self.e(x[1])})"
         if op == "yield":
             inner = "None" if x[1] is None else self.e(x[1])
             if self.traced:
@@ -485,7 +488,8 @@ class Emitter:
         for g in fn.get("nonlocals", []):
             self.w(f"nonlocal {g}")
         if self.traced:
-            self.w(f"_A = T.enter({self.fname!r})")
+            # (a function made several times by one factory is told its name by the factory)
+            self.w("_A = T.enter(_nm)" if fn.get("dyn_name") else f"_A = T.enter({self.fname!r})")
             self.w("try:")
             self.ind += 1
             self.w("T.entered(_A)")
@@ -634,7 +638,13 @@ def emit_module(program, traced):
         free = clo["free"]
         em.function(factory_ir(clo))
         args = ", ".join(str(v) for v in free.values())
-        em.w(f"{clo['fn']['name']} = {clo['factory']}({args})")
+        if clo.get("twins"):
+            em.w(f"{clo['fn']['name']} = {clo['factory']}({args}, {clo['fn']['name']!r})")
+            for tname, tfree in clo["twins"].items():
+                targs = ", ".join(str(tfree.get(k, v)) for k, v in free.items())
+                em.w(f"{tname} = {clo['factory']}({targs}, {tname!r})")
+        else:
+            em.w(f"{clo['fn']['name']} = {clo['factory']}({args})")
         em.w("")
     for tail in program.get("module_tail", []):
         em.w(tail)
@@ -644,7 +654,7 @@ def emit_module(program, traced):
 def factory_ir(clo):
     return {
         "name": clo["factory"],
-        "params": list(clo["free"]),
+        "params": list(clo["free"]) + (["_nm"] if clo.get("twins") else []),
         "body": [["nested_fn", clo["fn"]], ["ret", ["var", clo["fn"]["name"]]]],
         "factory_of": clo["fn"]["name"],
     }
@@ -667,6 +677,8 @@ def all_functions(program):
         out.append((fn["name"], fn))
     for clo in program.get("closures", []):
         out.append((clo["fn"]["name"], clo["fn"]))
+        for tname in clo.get("twins", {}):
+            out.append((tname, clo["fn"]))
         out.append((clo["factory"], factory_ir(clo)))
     return out
 
